@@ -70,8 +70,10 @@ pub fn exec(rec: &Value, _st: &mut State) -> Value {
         "vec" => {
             let v1 = gvi(rec, "v1");
             let v2 = gvi(rec, "v2");
-            let a = Vector2::new(v1[0] as f64, v1[1] as f64);
-            let b = Vector2::new(v2[0] as f64, v2[1] as f64);
+            // optional power-of-two lengths of the two vectors: the angle between them does not depend on their lengths
+            let (s1, s2) = ((2.0f64).powi(gi_or(rec, "sc1", 0) as i32), (2.0f64).powi(gi_or(rec, "sc2", 0) as i32));
+            let a = Vector2::new(v1[0] as f64 * s1, v1[1] as f64 * s1);
+            let b = Vector2::new(v2[0] as f64 * s2, v2[1] as f64 * s2);
             let s = signed_angle(&a, &b);
             let ccw = directed_angle(&a, &b, AngleDir::Ccw);
             let cw = directed_angle(&a, &b, AngleDir::Cw);
@@ -118,7 +120,8 @@ pub fn exec(rec: &Value, _st: &mut State) -> Value {
                     Some(r) => json!({"some": true, "min": uncode(&mut q, r.min), "max": uncode(&mut q, r.max)}),
                 });
             }
-            json!({"min": uncode(&mut q, iv.min), "max": uncode(&mut q, iv.max), "try_ok": tv.is_ok(),
+            let (tmin, tmax) = match &tv { Ok(t) => (uncode(&mut q, t.min), uncode(&mut q, t.max)), Err(_) => (0, 0) };
+            json!({"min": uncode(&mut q, iv.min), "max": uncode(&mut q, iv.max), "try_ok": tv.is_ok(), "tmin": tmin, "tmax": tmax,
                    "contains": contains, "clamp": clamp, "overlaps": ov, "contains_iv": ci, "inter": inter, "finite": q.finite})
         }
         "sint_nan" => {
